@@ -92,10 +92,18 @@ def with_monitor(case, born: Born):
 # part A
 
 
-def make_ragged(rng, schema, rows):
+def make_ragged(rng, schema, rows, allow_null=False):
     """copy of rows with ONE present row made ragged; None if impossible (single field / no present row)"""
     if len(schema) < 2:
         return None
+    if allow_null and rng.random() < 0.3:
+        # ragged through a NULL list: one field of a present, non-empty row has no list at all (length 0 against k > 0)
+        cand = [i for i, r in enumerate(rows) if r is not None and len(next(iter(r.values()))) > 0]
+        if cand:
+            i = rng.choice(cand)
+            out = [None if r is None else {k: list(v) for k, v in r.items()} for r in rows]
+            out[i][rng.choice(schema)[0]] = None
+            return out
     cand = [i for i, r in enumerate(rows) if r is not None]
     if not cand:
         return None
@@ -133,19 +141,19 @@ def entry_case(rng, tmpdir, i):
     while len(schema) < 2 or not any(r is not None for r in rows):
         schema, rows = gen.gen_content(rng, max_rows=6, max_len=4)
     ragged = i % 2 == 1
-    offered = make_ragged(rng, schema, rows) if ragged else rows
+    entry = ["constructor", "from_sequence", "pack_seq", "series_dtype", "pack_lists", "from_lists", "astype", "parquet",
+             "constructor_chunked", "from_sequence_df", "take_fill", "reindex_fill", "setitem", "set_list_field"][(i // 2) % 14]
+    offered = make_ragged(rng, schema, rows, allow_null=entry not in ("from_sequence_df", "take_fill", "reindex_fill", "setitem", "set_list_field")) if ragged else rows
     if offered is None:
         offered, ragged = rows, False
     names = [n for n, _ in schema]
     st = gen.struct_type(schema)
     layout = rng.choice(["one", "split", "window"])
-    entry = ["constructor", "from_sequence", "pack_seq", "series_dtype", "pack_lists", "from_lists", "astype", "parquet",
-             "constructor_chunked", "from_sequence_df", "take_fill", "reindex_fill", "setitem", "set_list_field"][(i // 2) % 14]
     if entry in ("take_fill", "reindex_fill"):
         return fill_entry_case(rng, entry, schema, rows, ragged)
     if entry in ("setitem", "set_list_field"):
         return assign_entry_case(rng, entry, schema, rows, ragged)
-    no_nan = all(v == v for r in offered if r is not None for vs in r.values() for v in vs)
+    no_nan = all(v == v for r in offered if r is not None for vs in r.values() if vs is not None for v in vs)
     import random as _random
     chunk_rng = _random.Random(rng.getrandbits(32))
 
@@ -226,7 +234,8 @@ def entry_case(rng, tmpdir, i):
 
 def assign_entry_case(rng, entry, schema, rows, ragged):
     """element assignment and list-field assignment as entry points: a ragged value is refused AND the column is left as it was"""
-    inp = ao.mk_input(rng, content=(schema, rows), recipes=[l for l in LAYOUTS if l != "history"])
+    multi = [l for l in ("split_fresh", "split_view", "sliced_chunks", "empty_chunks", "concat_slices") if l in LAYOUTS]
+    inp = ao.mk_input(rng, content=(schema, rows), recipes=multi if (rng.random() < 0.6 and len(rows) >= 2) else [l for l in LAYOUTS if l != "history"])
     with Born() as born:
         if entry == "setitem":
             c = ao.op_setitem(rng, inp, force_ragged=ragged)
